@@ -5,6 +5,26 @@ HERE = os.path.dirname(os.path.dirname(os.path.abspath(__file__)))
 ALL = ["C%02d" % i for i in range(1, 21)]
 # id -> (category, engine, technique, level text, level note, design ref)
 CHECKS = {
+ "C02": ("model_checking", "E1-choice",
+   "complete enumeration of all 2^32 RK words through the real decoder + stateless choice-tree exploration of BIFF8 sheets x equivalent record encodings",
+   "All 4 294 967 296 RK words are decoded by the real rk decoder and compared with the MS-XLS 2.5.217 definition (value, sign extension, /100, Int/Float typing); end to end, sheets with <=2 (thorough 3) cells of ~75 kinds at three anchors (incl. row 65535 / column 255) are written with every exact encoding of each number (NUMBER, RK int/float, x100 forms, MULRK grouping), LABELSST/LABEL/BOOLERR/FORMULA(+STRING) and ignorable records, in v3 and v4 containers, and read back through worksheet_range.",
+   "Trusted: gen/biff8.rs + gen/cfb.rs writers (MS-XLS / MS-CFB) and the value model.",
+   "DESIGN.md §2 C02"),
+ "C03": ("model_checking", "E1-choice",
+   "stateless choice-tree exploration of BIFF12 sheets x record kinds x ignorable-record interleavings on the real reader",
+   "Sheets with <=2 cells of ~70 kinds (every exact RK encoding, Real, Isst, St, Bool, Error, all four BrtFmla* kinds) at three anchors incl. the last row/column, with an ignorable record of 7 kinds and 6 payload lengths (1-, 2- and 3-byte length prefixes, 1- and 2-byte ids) at every gap, blank cells and optional pre-sheet-data blocks; all choice vectors with <=2 (thorough 3) deviations; worksheet_range and worksheet_range_ref compared with the model and with each other.",
+   "Trusted: gen/xlsb.rs (MS-XLSB) and the value model.",
+   "DESIGN.md §2 C03"),
+ "C12": ("model_checking", "E1-choice",
+   "stateless choice-tree exploration: every legal set of CONTINUE cut points x per-segment 8/16-bit packing of small shared-string tables on the real reader",
+   "1364 single-string, 1764 two-string and 256 three-string tables over {ASCII, Latin-1, BMP-only, astral} characters with rich-run / ExtRst variants are serialised under every subset of legal cut points and every packing of compressible segments (full product on small tables, <=2/3 deviations otherwise), plus 9000- and 32767-character strings cut at the 8224-byte limit; LABEL, FORMULA+STRING and sheet names in both packings; every cell referencing every string is compared.",
+   "Trusted: the SST serialiser in gen/biff8.rs; cuts inside headers / surrogate pairs are not generated.",
+   "DESIGN.md §2 C12"),
+ "C13": ("model_checking", "E1-choice",
+   "stateless choice-tree exploration of stream sets x physical compound-file layouts through the real Cfb reader",
+   "138 stream sets with sizes around the 64-byte mini sector, the 4096 mini-stream cutoff and sector multiples are written in every combination (thorough: full 4608-layout product; quick: <=2 deviations + full product on 6 sets) of v3/v4, 8 sector orders, 4 mini-sector orders, unused directory entries, directory order, free sectors, extra FAT sectors, free mini sectors; thorough adds a 15 MB stream with a full DIFAT sector. Streams must come back byte-exact.",
+   "Trusted: gen/cfb.rs (MS-CFB). The directory red-black colouring is not varied.",
+   "DESIGN.md §2 C13"),
  "C01": ("model_checking", "E1-choice",
    "stateless choice-tree exploration of logical xlsx sheets x legal physical encodings on the real reader vs a map model",
    "Every sheet with <=2 (thorough 3) cells of 22 kinds in a 3x4 window at four anchors (A1 .. XFD1048576 corner) is written under every choice vector with <=2 (thorough 3) deviations over cell kinds and 10 encoding variation points, plus the full 4096-encoding product on representative sheets; each file is read through worksheet_range and worksheet_range_ref and compared cell-by-cell and bound-by-bound with the model.",
